@@ -92,12 +92,29 @@ def run(ctx):
     ctx.ob('R1.2', 'converted_types.convert:logical-TIMESTAMP-handled-before-converted-types',
            'se.logicalType is not None and se.logicalType.TIMESTAMP is not None' in s and '_logical_to_time_dtype(se.logicalType.TIMESTAMP)' in s,
            'nanosecond timestamps carry only a logical type', ct_mod.loc(cv))
+    lbr = [n for n in ast.walk(cv) if isinstance(n, ast.If) and 'logicalType.TIMESTAMP is not None' in norm(n.test)]
+    okv = False
+    dv = 'logical TIMESTAMP branch not found'
+    if len(lbr) == 1:
+        asg = [st for st in lbr[0].body if isinstance(st, ast.Assign) and callee(st.value) == '_logical_to_time_dtype']
+        ret = [st for st in lbr[0].body if isinstance(st, ast.Return)]
+        if len(asg) == 1 and len(ret) == 1 and isinstance(ret[0].value, ast.Call) and callee(ret[0].value).endswith('.view'):
+            a = ret[0].value.args
+            okv = len(a) == 1 and isinstance(a[0], ast.Name) and a[0].id == norm(asg[0].targets[0])
+        dv = norm(ret[0]) if ret else 'no return'
+    ctx.ob('R1.2', 'converted_types.convert:logical-TIMESTAMP-integers-labelled-with-the-unit-recorded-in-the-file', okv,
+           '`%s`: the stored integers count the file\'s unit; labelling them with any other resolution (e.g. the output '
+           'array\'s) rescales every value' % dv, ct_mod.loc(lbr[0]) if lbr else ct_mod.loc(cv))
     lt = ct_mod.func('_logical_to_time_dtype')
     units = set(re.findall(r"'(NANOS|MICROS|MILLIS)'", src(lt)))
     wunits = set(re.findall(r"(NANOS|MICROS|MILLIS)=", src(ft)))
     ctx.ob('R1.2', 'converted_types._logical_to_time_dtype:covers-units-the-writer-emits', wunits <= units and len(wunits) == 3,
            'writer emits %s, reader knows %s' % (sorted(wunits), sorted(units)), ct_mod.loc(lt))
     r12_units(ctx, 'R1.2')
+    r110(ctx)
+    r19_floored(ctx)
+    from . import c17
+    c17.r175(ctx, 'R1.11')
 
     # R1.3
     enc_tbl = wr.assigns.get('encode')
@@ -195,8 +212,10 @@ def run(ctx):
     c04.r41(ctx, repo['writer'])
     c02.r27(ctx, 'R1.7')
     c03.r39(ctx, 'R1.8')
+    c03.r313(ctx, repo['core'], 'R1.12')
+    c03.r311(ctx, repo['core'], 'R1.13')
     from . import callsigs as _cs
-    _cs.general_rules(ctx, 'R1', ['writer.write', 'writer.write_simple', 'writer.write_multi', 'writer.make_row_group', 'writer.make_part_file', 'writer.partition_on_columns', 'writer.make_metadata', 'writer.write_column', 'core', 'api.ParquetFile.to_pandas', 'api.ParquetFile.read_row_group_file', 'converted_types', 'encoding', 'writer.convert', 'writer.find_type'])
+    _cs.general_rules(ctx, 'R1', ['writer.write', 'writer.write_simple', 'writer.write_multi', 'writer.make_row_group', 'writer.make_part_file', 'writer.partition_on_columns', 'writer.make_metadata', 'writer.write_column', 'core', 'api.ParquetFile.to_pandas', 'api.ParquetFile.read_row_group_file', 'converted_types', 'encoding', 'writer.convert', 'writer.find_type', 'api.ParquetFile.pre_allocate', 'api.ParquetFile._dtypes', 'api._pre_allocate', 'dataframe'])
 
 
 def r16(ctx, core):
@@ -351,3 +370,70 @@ def r12_units(ctx, rule):
                        'arm selected for resolution %r stores unit %s; the integers written keep the column\'s own resolution'
                        % (sel[id(blk)] or 'coarser than us', unit), wr.loc(lt))
     ctx.floor(rule, 'find_type arms with a logical time unit', arms, 3)
+
+
+def r110(ctx, rule='R1.10'):
+    """core.read_col, pages that carry definition levels: every non-object output gets its missing-value marker at
+    the null positions of every page (category codes get -1: code arrays of index levels are not pre-filled)"""
+    core = ctx.repo['core']
+    f = core.func('read_col')
+    cfg = CFG(f)
+    marks = [st for st in iter_child_stmts(f.body) if isinstance(st, ast.Assign) and isinstance(st.targets[0], ast.Subscript)
+             and isinstance(st.value, ast.Name) and 'max_defi' in norm(st.targets[0].slice) and '!=' in norm(st.targets[0].slice)]
+    ctx.ob(rule, 'core.read_col:null-marker-store-present', len(marks) == 1, str([norm(m) for m in marks]), core.loc(f))
+    if len(marks) != 1:
+        return
+    mk = marks[0]
+    tests = [(e, fld) for e, fld in cfg.enclosing_tests(mk) if isinstance(e, ast.If)]
+    inner = tests[-1][0]
+    t = inner.test
+    ok = isinstance(t, ast.Compare) and len(t.ops) == 1 and isinstance(t.ops[0], ast.NotEq) and norm(t.left).endswith('.dtype.kind') \
+        and isinstance(t.comparators[0], ast.Constant) and t.comparators[0].value == 'O'
+    ctx.ob(rule, 'core.read_col:null-marker-written-for-every-non-object-output', ok,
+           'guard `%s`: any further condition (e.g. on use_cat) leaves the null positions of that output unwritten; only '
+           'data-column categoricals are pre-filled with -1' % norm(t), core.loc(inner))
+    marker = mk.value.id
+    defs = [st for st in iter_child_stmts(f.body) if isinstance(st, ast.Assign) and norm(st.targets[0]) == marker]
+    cat = []
+    for d in defs:
+        enc = [(norm(e.test), fld) for e, fld in cfg.enclosing_tests(d) if isinstance(e, ast.If)]
+        if enc and enc[0] == ('use_cat', 'body'):
+            cat.append(d)
+    ok = len(cat) == 1 and isinstance(cat[0].value, (ast.UnaryOp, ast.Constant)) and norm(cat[0].value) == '-1'
+    ctx.ob(rule, 'core.read_col:category-codes-use-null-code--1', ok,
+           '%s under `if use_cat`: %s' % (marker, [norm(c) for c in cat] or 'no definition'), core.loc(cat[0]) if cat else core.loc(f))
+    kinds = {}
+    for d in defs:
+        if d in cat:
+            continue
+        enc = [norm(e.test) for e, fld in cfg.enclosing_tests(d) if isinstance(e, ast.If) and fld == 'body']
+        encn = [e.test for e, fld in cfg.enclosing_tests(d) if isinstance(e, ast.If) and fld == 'body']
+        kinds[norm(d.value)] = ''.join(sorted(c.value for c in ast.walk(encn[-1]) if isinstance(c, ast.Constant) and isinstance(c.value, str))) \
+            if encn and '.dtype.kind' in norm(encn[-1]) else None
+    want = {'pd.NA': 'biu', 'np.nan': 'f', "assign.dtype.type('NaT')": 'Mm'}
+    for v, g in want.items():
+        ctx.ob(rule, 'core.read_col:marker-%s-for-its-dtype-kinds' % v, kinds.get(v) == g,
+               'selected for dtype kinds %r (expected %r)' % (kinds.get(v), g), core.loc(f))
+
+
+def r19_floored(ctx, rule='R1.9'):
+    """a quotient taken with floor division must be paired with the floored remainder (`%` / np.mod / np.remainder):
+    fmod / truncating remainders disagree with `//` for negative operands (timestamps before the epoch)"""
+    n = 0
+    for mname in ('writer', 'converted_types', 'encoding', 'core', 'util', 'dataframe', 'api'):
+        m = ctx.repo[mname]
+        for q, f in m.funcs.items():
+            divs = {norm(x.right) for x in walk_no_nested(f) if isinstance(x, ast.BinOp) and isinstance(x.op, ast.FloorDiv)}
+            mods = [x for x in walk_no_nested(f) if isinstance(x, ast.BinOp) and isinstance(x.op, ast.Mod) and not isinstance(x.left, ast.Constant)]
+            n += len([x for x in mods if norm(x.right) in divs])
+            for c in walk_no_nested(f):
+                if isinstance(c, ast.Call) and (callee(c) or '').split('.')[-1] in ('fmod', 'trunc_divide') and len(c.args) == 2:
+                    ctx.ob(rule, '%s.%s:remainder-is-floored-like-its-quotient:%s' % (mname, q, norm(c)[:40]),
+                           norm(c.args[1]) not in divs, '`%s` next to `// %s`' % (norm(c), norm(c.args[1])), m.loc(c))
+    wr = ctx.repo['writer']
+    f = wr.func('convert')
+    pairs = [x for x in walk_no_nested(f) if isinstance(x, ast.BinOp) and isinstance(x.op, ast.Mod) and norm(x.right) == 'ns_per_day']
+    quos = [x for x in walk_no_nested(f) if isinstance(x, ast.BinOp) and isinstance(x.op, ast.FloorDiv) and norm(x.right) == 'ns_per_day']
+    ctx.ob(rule, 'writer.convert:int96-day-and-nanoseconds-are-a-floored-quotient/remainder-pair',
+           len(pairs) == 1 and len(quos) >= 1 and norm(pairs[0].left) == norm(quos[0].left),
+           'day = x // ns_per_day, ns = x %% ns_per_day over the same x: %s / %s' % ([norm(x) for x in quos][:2], [norm(x) for x in pairs][:2]), wr.loc(f))
